@@ -21,7 +21,8 @@
    input (inputs come in any order). *)
 From AwVerif Require Import Base.Prelude Model.Timeslot Model.Intersect
   Proofs.IntersectSlot Proofs.IntersectSort Proofs.IntersectProofs
-  Proofs.IntersectUnion Proofs.IntersectMeasure Proofs.IntersectWide.
+  Proofs.IntersectUnion Proofs.IntersectMeasure Proofs.IntersectWide Proofs.IntersectIndex.
+From Coq Require Import Sorting.Sorted.
 
 (* ------------------------------------------------------------------------------------ *)
 (* Timeslot (third party), for all slots, negative durations included                    *)
@@ -73,6 +74,19 @@ Print Assumptions C09_intersect_total.
 Theorem C09_union_total : forall empty a b, exists out, period_union empty a b = Ok out.
 Proof. exact pu_total. Qed.
 Print Assumptions C09_union_total.
+
+(* Nothing is visited twice, for ALL inputs (overlapping lists included): the yields of the
+   generator, as filter_period_intersect runs it, are the events at index pairs (e1_i, e2_i)
+   whose sum strictly increases along the output -- so no index pair is emitted twice. *)
+Theorem C09_sweep_no_revisit : forall l1 l2 out,
+  sweep (length l1 + length l2) l1 l2 = Ok out ->
+  exists ixs : list (nat * nat * (event * event * timeslot)),
+    out = map snd ixs /\
+    Forall (fun p => let '(i, j, (e, f, _)) := p in
+              nth_error l1 i = Some e /\ nth_error l2 j = Some f) ixs /\
+    StronglySorted (fun p q => (ix_sum p < ix_sum q)%nat) ixs.
+Proof. exact sweep_no_revisit. Qed.
+Print Assumptions C09_sweep_no_revisit.
 
 (* ------------------------------------------------------------------------------------ *)
 (* filter_period_intersect                                                               *)
